@@ -23,6 +23,12 @@ var CopySignature = []byte("PGCOPY\n\377\r\n\000")
 // reader and writes the data to the given writer. The columns are used to determine
 // the format of the data that is read from the reader.
 func NewCopyReader(reader *buffer.Reader, writer *buffer.Writer, columns Columns) *CopyReader {
+	// NOTE: whatever is left of the message that started the copy operation
+	// is not part of the copy-in stream.
+	if reader.Msg != nil {
+		reader.Msg = reader.Msg[len(reader.Msg):]
+	}
+
 	return &CopyReader{
 		Reader:  reader,
 		writer:  writer,
